@@ -122,16 +122,16 @@ func realKindName(s store.Store) string {
 // ---- projection of a real store through its public API ---------------------
 
 type RealStoreObs struct {
-	Empty    bool       `json:"empty"`
-	Total    float64    `json:"total"`
-	Min      int        `json:"min"`
-	MinErr   bool       `json:"minErr"`
-	Max      int        `json:"max"`
-	MaxErr   bool       `json:"maxErr"`
+	Empty    bool         `json:"empty"`
+	Total    float64      `json:"total"`
+	Min      int          `json:"min"`
+	MinErr   bool         `json:"minErr"`
+	Max      int          `json:"max"`
+	MaxErr   bool         `json:"maxErr"`
 	ForEach  [][2]float64 `json:"forEach"` // index, weight in iteration order
 	BinsCh   [][2]float64 `json:"bins"`
 	Kar      [][2]float64 `json:"kar"` // rank, index
-	Problems []string   `json:"problems,omitempty"`
+	Problems []string     `json:"problems,omitempty"`
 }
 
 func projectStore(s store.Store, ranks []float64) (o RealStoreObs) {
@@ -475,6 +475,11 @@ type StoreGen struct {
 	Simulate bool
 	Num      int
 	Twin     string // differential verdict (see StoreCfg.Twin)
+	// directed scenario (Gen_Store!Directed): indexes offered per slot, slots filled in ascending/descending order,
+	// and the <<source, receiver>> pairs offered to two-slot operations; zero values = undirected
+	SlotKeys  [][]int
+	Asc, Desc []int
+	Pairs     [][2]int
 }
 
 func (g *StoreGen) module() (name, text, cfg string) {
@@ -490,6 +495,14 @@ func (g *StoreGen) module() (name, text, cfg string) {
 	if len(fac) == 0 {
 		fac = [][2]int{{2, 1}}
 	}
+	var sk []string
+	for i := range g.Kinds {
+		keys := g.Keys
+		if i < len(g.SlotKeys) {
+			keys = g.SlotKeys[i]
+		}
+		sk = append(sk, fmt.Sprintf("(%d :> %s)", i+1, tlaSet(keys)))
+	}
 	text = fmt.Sprintf(`---- MODULE RunGenStore ----
 EXTENDS Gen_Store
 RSlots == 1..%d
@@ -499,8 +512,13 @@ RRepeats == %s
 RFactors == %s
 ROps == %s
 RInit == %s
+RSlotKeys == %s
+RAsc == %s
+RDesc == %s
+RPairs == %s
 ====
-`, len(g.Kinds), tlaSet(g.Keys), tlaSet(g.Weights), tlaSet(rep), tlaPairs(fac), tlaStrSet(g.Ops), strings.Join(ks, " @@ "))
+`, len(g.Kinds), tlaSet(g.Keys), tlaSet(g.Weights), tlaSet(rep), tlaPairs(fac), tlaStrSet(g.Ops), strings.Join(ks, " @@ "),
+		strings.Join(sk, " @@ "), tlaSet(g.Asc), tlaSet(g.Desc), tlaPairs(g.Pairs))
 	cfg = fmt.Sprintf(`INIT GenInit
 NEXT GenNext
 CONSTANTS
@@ -514,6 +532,10 @@ CONSTANTS
   InitStores <- RInit
   Depth = %d
   EndMarker = %s
+  SlotKeys <- RSlotKeys
+  Asc <- RAsc
+  Desc <- RDesc
+  Pairs <- RPairs
 INVARIANT Emit
 CHECK_DEADLOCK FALSE
 `, g.Q, g.Depth, map[bool]string{true: "TRUE", false: "FALSE"}[g.Simulate])
@@ -521,15 +543,22 @@ CHECK_DEADLOCK FALSE
 }
 
 func (g *StoreGen) describe() string {
-	return fmt.Sprintf("kinds=%v keys=%v Q=%d weights=%v ops=%v depth=%d", g.Kinds, g.Keys, g.Q, g.Weights, g.Ops, g.Depth)
+	d := fmt.Sprintf("kinds=%v keys=%v Q=%d weights=%v ops=%v depth=%d", g.Kinds, g.Keys, g.Q, g.Weights, g.Ops, g.Depth)
+	if len(g.SlotKeys) > 0 || len(g.Asc) > 0 || len(g.Desc) > 0 || len(g.Pairs) > 0 {
+		d += fmt.Sprintf(" directed: slotKeys=%v asc=%v desc=%v pairs=%v", g.SlotKeys, g.Asc, g.Desc, g.Pairs)
+	}
+	return d
 }
 
 // embeddings sigma(k)=base+k*stride used for replay. Collapsing slots need stride 1.
 type embedding struct{ Base, Stride int }
 
-func storeEmbeddings(hasCollapsing bool, exactKinds []string, thorough bool) []embedding {
+func storeEmbeddings(hasCollapsing bool, exactKinds []string, thorough bool, maxKey int) []embedding {
+	if maxKey < 4 {
+		maxKey = 4
+	}
 	if hasCollapsing {
-		es := []embedding{{0, 1}, {-2, 1}, {30, 1}, {-34, 1}, {1000, 1}, {math.MaxInt32 - 4, 1}, {math.MinInt32, 1}, {-70000, 1}}
+		es := []embedding{{0, 1}, {-2, 1}, {30, 1}, {-34, 1}, {1000, 1}, {math.MaxInt32 - maxKey, 1}, {math.MinInt32, 1}, {-70000, 1}}
 		return es
 	}
 	dense, paged := false, false
@@ -542,7 +571,7 @@ func storeEmbeddings(hasCollapsing bool, exactKinds []string, thorough bool) []e
 		}
 	}
 	es := []embedding{{0, 1}, {-2, 1}, {30, 1}, {-34, 1}, {29, 2}, {0, 31}, {1, 32}, {-33, 33}, {5, 64}, {-300, 127},
-		{math.MaxInt32 - 4, 1}, {math.MinInt32, 1}, {math.MaxInt32 - 4*1000, 1000}, {math.MinInt32 + 7, 999}}
+		{math.MaxInt32 - maxKey, 1}, {math.MinInt32, 1}, {math.MaxInt32 - maxKey*1000, 1000}, {math.MinInt32 + 7, 999}}
 	switch {
 	case dense:
 		if thorough {
@@ -590,7 +619,7 @@ func storeConfigsFor(g *StoreGen, thorough bool) []StoreCfg {
 	rec(0, nil)
 	var out []StoreCfg
 	for _, a := range assigns {
-		for _, e := range storeEmbeddings(hasColl, a, thorough) {
+		for _, e := range storeEmbeddings(hasColl, a, thorough, maxOf(g.Keys)) {
 			for _, mode := range []string{"every", "final"} {
 				for pv := 0; pv < 2; pv++ {
 					if twin != "" && mode == "final" {
@@ -603,4 +632,14 @@ func storeConfigsFor(g *StoreGen, thorough bool) []StoreCfg {
 	}
 	sort.SliceStable(out, func(i, j int) bool { return false })
 	return out
+}
+
+func maxOf(xs []int) int {
+	m := 0
+	for _, x := range xs {
+		if x > m {
+			m = x
+		}
+	}
+	return m
 }
